@@ -77,6 +77,40 @@ theorem c19_instant_text_year_10000_refuted :
   | exact Or.inl (by decide)
   | exact Or.inr (by decide +kernel)
 
+/-- `(*DateType).GetTime` (layouts of the source): the plain form `YYYY-MM-DD` and the form with `Z` of EVERY date of
+    the years 0000–9999 are read as midnight UTC of that date (`sec` is any instant of the day, `w` its wall clock) -/
+theorem c19_date_text_read :
+    astParseKnown = false ∨
+    ∀ (sec : Int), minSec ≤ sec → sec ≤ maxSec → ∃ w, wallOf sec 0 0 = some w ∧
+      getTime (dateParseRaw.map lex) (dateText w []) = some ⟨sec - ((w.hour * 3600 + w.minute * 60 + w.second : Nat) : Int), 0, 0⟩ ∧
+      getTime (dateParseRaw.map lex) (dateText w [90]) = some ⟨sec - ((w.hour * 3600 + w.minute * 60 + w.second : Nat) : Int), 0, 0⟩ := by
+  first
+  | exact Or.inl (by decide)
+  | exact Or.inr (fun sec h0 h1 => by
+      obtain ⟨w, hw, h⟩ := date_is_read (dateParseRaw.map lex) [] (Or.inl rfl) (by decide +kernel) (by decide +kernel) sec h0 h1
+      obtain ⟨w', hw', h'⟩ := date_is_read (dateParseRaw.map lex) [90] (Or.inr rfl) (by decide +kernel) (by decide +kernel) sec h0 h1
+      rw [hw] at hw'
+      cases hw'
+      exact ⟨w, hw, h, h'⟩)
+
+/-- `(*TimeType).GetTime` (layouts of the source): the plain form `hh:mm:ss` and the form with `Z` of EVERY time of
+    day are read as that time on 1 January of the year 0, UTC -/
+theorem c19_time_of_day_text_read :
+    astParseKnown = false ∨
+    ∀ (h mi s : Nat), h < 24 → mi < 60 → s < 60 →
+      getTime (timeParseRaw.map lex) (timeText h mi s []) = some ⟨minSec + ((h * 3600 + mi * 60 + s : Nat) : Int), 0, 0⟩ ∧
+      getTime (timeParseRaw.map lex) (timeText h mi s [90]) = some ⟨minSec + ((h * 3600 + mi * 60 + s : Nat) : Int), 0, 0⟩ := by
+  first
+  | exact Or.inl (by decide)
+  | exact Or.inr (fun h mi s hh hmi hs =>
+      ⟨tod_is_read (timeParseRaw.map lex) [] (Or.inl rfl) (by decide +kernel) (by decide +kernel) h mi s hh hmi hs,
+       tod_is_read (timeParseRaw.map lex) [90] (Or.inr rfl) (by decide +kernel) (by decide +kernel) h mi s hh hmi hs⟩)
+
+/-- non-vacuity: 2001-10-26 (any second of it) and 13:20:00 -/
+example : (wallOf 1004100000 0 0).map (fun w => dateText w [90]) = some [50, 48, 48, 49, 45, 49, 48, 45, 50, 54, 90] ∧
+    timeText 13 20 0 [] = [49, 51, 58, 50, 48, 58, 48, 48] ∧ minSec + ((13 * 3600 + 20 * 60 + 0 : Nat) : Int) = -62167171200 := by
+  decide +kernel
+
 /-- what a peer may send, on the layouts of the source (kernel-evaluated witnesses): a fraction is read although
     the layout tried has none; a one-digit hour is accepted; 29 February only in a leap year; second 60 and hour
     24 are refused; a numeric zone is refused by `DateTimeType`; `DateType` reads the plain and the `Z` form as
